@@ -135,13 +135,7 @@ func compare(mfs []*dto.MetricFamily, ref reference) []bad {
 		}
 		fams[mf.GetName()] = mf
 	}
-	for name := range fams {
-		switch name {
-		case nameLatency, nameBytesIn, nameBytesOut, nameFail:
-		default:
-			add("prom:unexpected-family", "unexpected metric family %q", name)
-		}
-	}
+	// further metric families are none of the property's business (it speaks about four): ignored
 
 	base := []string{"method", "url", "status"}
 
